@@ -111,7 +111,12 @@ def gen(rng, tier):
     for _ in range(n):
         j = rand_json(rng, 1 + rng.below(5))
         layout = rng.pick(["compact", "indent", "ws"])
-        yield {"k": "json", "json": j, "s": render(j, rng, layout), "_tag": "json/" + layout}
+        c = {"k": "json", "json": j, "s": render(j, rng, layout), "_tag": "json/" + layout}
+        if rng.chance(0.2):
+            # IgnoreCommas only concerns a top-level comma: a document (which has none) parses to the same data
+            c["cfg"] = {"ignoreCommas": True}
+            c["_tag"] += "+ignoreCommas"
+        yield c
     # exhaustive short strings under several configs
     cfgs = [None, {"array": True, "object": False}, {"array": False, "object": False, "dq": False, "sq": False, "ignoreCommas": True},
             {"dq": False}, {"sq": False}, {"array": False, "object": True}, {"ignoreCommas": True}]
